@@ -86,16 +86,20 @@ def recoverReal (U : Fin n → Fin N → C) (y : Fin N → C) : Fin n → R :=
   fun j => dotFin (fun k => CplxOps.re (U j k)) (fun k => CplxOps.re (y k))
          - dotFin (fun k => CplxOps.im (U j k)) (fun k => CplxOps.im (y k))
 
+/-- sample 0 is the initial state itself (`d[:, 0]`, `v[:, 0]` are never overwritten), the later
+ones are recovered from the modal states -/
+def recoverTail {S Y : Type} (s0 : S) (rec : Y → S) : List Y → List S
+  | [] => []
+  | _ :: rest => s0 :: rest.map rec
+
 /-- the elastic part of `_solve_complex_unc` for a real system: samples `(d_j, v_j)` on the `kdof`
-rows, one per force sample; sample 0 is the initial state itself (never overwritten) -/
+rows, one per force sample -/
 def coupledRun (order1 : Bool) (isSmall : C → Bool) (h : C) (e : Eig C n N)
     (d0 v0 : Fin n → R) (imf : List (Fin n → R)) : List ((Fin n → R) × (Fin n → R)) :=
   let emb : (Fin n → R) → Fin n → C := fun x j => CplxOps.ofReal (x j)
   let c : Fin N → C × C × C := fun k => coefSel isSmall (e.lam k) h
-  let ys := runModal order1 c (modalInit e (emb d0) (emb v0)) (imf.map fun f => modalForce e (emb f))
-  match ys with
-  | [] => []
-  | _ :: rest => (d0, v0) :: rest.map fun y => (recoverReal e.urD y, recoverReal e.urV y)
+  recoverTail (d0, v0) (fun y => (recoverReal e.urD y, recoverReal e.urV y))
+    (runModal order1 c (modalInit e (emb d0) (emb v0)) (imf.map fun f => modalForce e (emb f)))
 
 end coupled
 
